@@ -4,15 +4,20 @@
 //                                        2 double with NaN            3 Never (equal_to specialised: never equal)
 //                                        4 NoEq (no operator==, no specialisation: the library's "never equal" fallback;
 //                                          only with -DEQ_HAVE_NOEQ, which bin/verif sets when harness/eq_probe_noeq.cpp compiles)
+//                                        5 Loose (a class with an ordinary operator== that is not declared noexcept)
 //   ew <path 0 set | 1 operator= | 2 stream extraction> <v>
 //   ewcur <path 0 set(p.get()) | 1 p = p.get()>        the property's own value, through the reference get() returns
 //   eobs <0 valueAboutToChange | 1 valueChanged>
+//   ebind                                an immediate binding b = f(p); prints `fn <index>` whenever f runs (index = its place among
+//                                        the valueChanged subscribers of p)
+#include <kdbindings/binding.h>
 #include <kdbindings/property.h>
 
 #include <cmath>
 #include <fstream>
 #include <iostream>
 #include <limits>
+#include <memory>
 #include <sstream>
 #include <string>
 #include <vector>
@@ -28,6 +33,10 @@ struct Never {
 struct NoEq {
     long v = 0;
 };
+struct Loose {
+    long v = 0;
+    bool operator==(const Loose &o) const { return v == o.v; } // deliberately not noexcept, like most user types
+};
 namespace KDBindings {
 template<>
 struct equal_to<Mod10> {
@@ -41,6 +50,7 @@ struct equal_to<Never> {
 static std::istream &operator>>(std::istream &s, Mod10 &x) { return s >> x.v; }
 static std::istream &operator>>(std::istream &s, Never &x) { return s >> x.v; }
 static std::istream &operator>>(std::istream &s, NoEq &x) { return s >> x.v; }
+static std::istream &operator>>(std::istream &s, Loose &x) { return s >> x.v; }
 
 template<typename T>
 struct Conv;
@@ -66,6 +76,7 @@ struct Conv<double> {
 EQ_CONV(Mod10)
 EQ_CONV(Never)
 EQ_CONV(NoEq)
+EQ_CONV(Loose)
 
 static std::vector<std::string> toks(const std::string &l)
 {
@@ -95,6 +106,15 @@ static void runScript(std::ifstream &in, long init, int nA, int nC)
             (void)p.valueChanged().connect([&p, idx](const T &n) {
                 std::cout << "notify changed " << idx << " " << C::show(n) << " get=" << C::show(p.get()) << "\n";
             });
+        };
+        std::vector<std::unique_ptr<Property<int>>> readers;
+        auto addB = [&] {
+            int idx = nc++;
+            readers.push_back(std::make_unique<Property<int>>(makeBoundProperty([idx](const T &) {
+                std::cout << "fn " << idx << "\n";
+                return idx;
+            },
+                                                                                p)));
         };
         for (int i = 0; i < nA; ++i)
             addA();
@@ -131,6 +151,8 @@ static void runScript(std::ifstream &in, long init, int nA, int nC)
                     addA();
                 else
                     addC();
+            } else if (t[0] == "ebind" && t.size() == 1) {
+                addB();
             } else {
                 std::cout << "harness-error bad op: " << line << "\n";
             }
@@ -167,6 +189,9 @@ static void runFile(const char *path)
             break;
         case 3:
             runScript<Never>(in, init, nA, nC);
+            break;
+        case 5:
+            runScript<Loose>(in, init, nA, nC);
             break;
         default:
 #ifdef EQ_HAVE_NOEQ
